@@ -2,7 +2,7 @@
 
 package load
 
-// C02, thorough tier: overlaid as core/load/zz_verif_c02_export.go (a non-test file) when the
+// C02, middleware drivers: overlaid as core/load/zz_verif_c02_export.go (a non-test file) when the
 // drivers of the middleware packages (rest/handler, zrpc/internal/serverinterceptors) are
 // built, so that they can inject the CPU verdict and read the in-flight counter and the
 // moving average of an adaptive shedder. Not part of go-zero.
@@ -14,6 +14,14 @@ func VerifC02SetOverload(f func() bool) func() {
 	prev := systemOverloadChecker
 	systemOverloadChecker = func(int64) bool { return f() }
 	return func() { systemOverloadChecker = prev }
+}
+
+// VerifC02NewDisabled creates a shedder while shedding is disabled (what load.DisableShedding
+// leaves behind): the nop shedder.
+func VerifC02NewDisabled(opts ...ShedderOption) Shedder {
+	enabled.Set(false)
+	defer enabled.Set(true)
+	return NewAdaptiveShedder(opts...)
 }
 
 // VerifC02Peek returns flying and avgFlying x 1e5 of an adaptive shedder (ok = false: another kind).
